@@ -10,6 +10,10 @@ PYTHONPATH=/repo/modules PYTHONHASHSEED=0 PYTHONDONTWRITEBYTECODE=1 PYTHONWARNIN
 /venv/bin/python harness/translate_select.py coq/Gen/SelectGen.v
 /venv/bin/python harness/extract_layouts.py coq/Gen/Layouts.v
 /venv/bin/python harness/extract_dispatch.py coq/Gen/Dispatch.v
+/venv/bin/python harness/extract_clean.py coq/Gen/CleanGen.v
+/venv/bin/python harness/extract_readers.py coq/Gen/Readers.v
+PYTHONPATH=/repo/modules PYTHONHASHSEED=0 PYTHONDONTWRITEBYTECODE=1 PYTHONWARNINGS=ignore \
+  /venv/bin/python harness/extract_regexes.py coq/Gen/Regexes.v
 cd coq
 coq_makefile -f _CoqProject -o Makefile >/dev/null
 timeout 3000 make -k -j16 >/dev/null 2>../build/make.err || { tail -30 ../build/make.err; echo "setup: some Coq files failed (the affected checks will report it)"; }
